@@ -763,6 +763,15 @@ def weave_extract(ub, ex, rf, repo_root):
         rec['transformations'].append({'rule': 'E3', 'what': 'emitted under the name %s' % rename})
 
     # apply edits, tracking generated lines for clause spans
+    # edits that fall inside a region replaced as a whole (a cut) are dropped with it
+    spans_big = [(e.start, e.end) for e in edits if e.end - e.start > 0]
+    kept = []
+    for e in edits:
+        inside = any((a <= e.start and e.end <= b) and (a, b) != (e.start, e.end)
+                     and not (e.start == e.end and (e.start == a or e.end == b)) for a, b in spans_big)
+        if not inside:
+            kept.append(e)
+    edits = kept
     edits.sort(key=lambda e: (e.start, e.end))
     for a, b in zip(edits, edits[1:]):
         if b.start < a.end:
